@@ -193,7 +193,8 @@ def progress_or_raise(ctx, rep, rule):
     rep.check(bool(raises), rule, "%s raises when it cannot go on" % fn, fn, "no raise statement is reachable",
               "a cyclic graph is never reported")
     for e in an.events('AUG'):
-        if e.data['val'][0] in ('pos', 'acc'):
+        if e.data['val'][0] in ('pos', 'acc') and not e.data.get('depth'):
+            # (the counter of the scan itself: a helper that counts something else is not concerned)
             rep.check(e.data['marked'] is not None, rule, "%s counter goes with marking" % e.where, fn,
                       "`%s` on a path where no job was marked in this step" % src(stmt_of(e.node)),
                       "the count of yielded jobs runs ahead: the scan stops before all jobs were yielded",
@@ -305,7 +306,9 @@ def check_cycles_rules(ctx, rep, rule):
         rep.check(bool(caught), rule, "%s handles the scan's exception" % fn, fn,
                   "no handler catches the exception raised by the ordering generator",
                   "check_cycles() raises on a cyclic graph instead of returning False")
-        loops_over_topo = [n for n in walk_local(f.node) if isinstance(n, ast.Call)
+        # (in the function itself, or in a helper it runs - a scan handed over as a bound method included)
+        walked = [f] + [p.funcs[q] for q in sorted(ip.inlined) if q in p.funcs and p.funcs[q] is not f]
+        loops_over_topo = [n for g in walked for n in walk_local(g.node) if isinstance(n, ast.Call)
                            and dotted(n.func) == 'self.topological_order'
                            and isinstance(getattr(n, '_parent', None), (ast.For, ast.comprehension))]
         rep.check(bool(loops_over_topo), rule, "%s scans with topological_order()" % fn, fn,
@@ -735,6 +738,22 @@ def sanitize_rules(ctx, rep, r1, r2, r3, r4):
 
 
 # ==================================================================== C17
+def _str_literal(func, e):
+    """the string an argument stands for: a literal, or a module-level name bound once to a string literal"""
+    if isinstance(e, ast.Constant) and isinstance(e.value, str):
+        return e.value
+    if isinstance(e, ast.Name) and e.id not in func.params:
+        if any(isinstance(n, ast.Name) and n.id == e.id and isinstance(n.ctx, ast.Store) for n in ast.walk(func.node)):
+            return None
+        defs = [n for n in func.module.tree.body if isinstance(n, (ast.Assign, ast.AnnAssign, ast.AugAssign))
+                and any(isinstance(t, ast.Name) and t.id == e.id
+                        for t in (n.targets if isinstance(n, ast.Assign) else [n.target]))]
+        if len(defs) == 1 and isinstance(defs[0], (ast.Assign, ast.AnnAssign)) and isinstance(defs[0].value, ast.Constant) \
+                and isinstance(defs[0].value.value, str):
+            return defs[0].value.value
+    return None
+
+
 def _helper_roles(ctx):
     """step helper = the function reading getattr(<x>, <its parameter>); closure helper =
     the function that loops `while` around calls of the step helper"""
@@ -752,9 +771,9 @@ def _helper_roles(ctx):
         for f in r.sched.methods.values():
             for n in walk_local(f.node):
                 if isinstance(n, ast.Call) and isinstance(n.func, ast.Attribute) and isinstance(n.func.value, ast.Name) \
-                        and n.func.value.id == 'self' and n.args and isinstance(n.args[0], ast.Constant) \
-                        and isinstance(n.args[0].value, str) and n.func.attr in r.sched.methods:
-                    lits.setdefault(n.func.attr, set()).add(n.args[0].value)
+                        and n.func.value.id == 'self' and n.args and _str_literal(f, n.args[0]) is not None \
+                        and n.func.attr in r.sched.methods:
+                    lits.setdefault(n.func.attr, set()).add(_str_literal(f, n.args[0]))
         cands = [r.sched.methods[m] for m, v in lits.items() if len(v) >= 2
                  and not any(isinstance(n, ast.While) for n in walk_local(r.sched.methods[m].node))
                  and len(r.sched.methods[m].params) > 1]
@@ -778,8 +797,8 @@ def _literal_attr(ctx, func, helpers):
     out = set()
     for n in walk_local(func.node):
         if isinstance(n, ast.Call) and isinstance(n.func, ast.Attribute) and n.func.attr in helpers \
-                and n.args and isinstance(n.args[0], ast.Constant) and isinstance(n.args[0].value, str):
-            out.add((n.func.attr, n.args[0].value))
+                and n.args and _str_literal(func, n.args[0]) is not None:
+            out.add((n.func.attr, _str_literal(func, n.args[0])))
     return out
 
 
@@ -922,7 +941,18 @@ def _guards_of(node, stop):
                         and not prev.orelse:
                     out.append((prev.test, False))
         n = par
-    return out
+    # a conjunction that holds is each of its operands holding (and dually)
+    flat = []
+    work = list(out)
+    while work:
+        test, pol = work.pop(0)
+        if isinstance(test, ast.UnaryOp) and isinstance(test.op, ast.Not):
+            work.insert(0, (test.operand, not pol))
+        elif isinstance(test, ast.BoolOp) and isinstance(test.op, ast.And if pol else ast.Or):
+            work = [(v, pol) for v in test.values] + work
+        else:
+            flat.append((test, pol))
+    return flat
 
 
 def _step_shape(ctx, rep, rule, stepf, attparam):
@@ -1016,10 +1046,16 @@ def _step_shape(ctx, rep, rule, stepf, attparam):
                       "the step follows another relation than the one requested, or not from the start jobs")
             member, extra = False, []
             for (_key, it, conds) in gens:
-                for cd in conds:
-                    pol = True
+                todo = [(cd, True) for cd in conds]
+                while todo:
+                    cd, pol = todo.pop(0)
                     while cd[0] == 'unop' and cd[1] == 'not':
                         cd, pol = cd[2], not pol
+                    if cd[0] == 'boolop' and cd[1] == ('and' if pol else 'or'):
+                        todo = [(x, pol) for x in cd[2]] + todo
+                        continue
+                    if cd == ('unk', 'operand'):
+                        continue        # an operand widened away (the set collected so far, nested in itself)
                     if cd[0] == 'cmp' and cd[1] in ('in', 'not in') and cd[2] == elt:
                         isin = (cd[1] == 'in') == pol
                         if cd[3] == MEMB and isin:
@@ -1062,9 +1098,32 @@ class ClosureModel(GraphModel):
             self.ev(ip, 'LADD', node, st, fr, name=name, arg=args[0], conds=conds,
                     coll=st.var(fr.fid, f.value.id))
             st = st.set(added=True)
+            # a local that holds the size the set had before this addition now holds an older, smaller size
+            # (`size_before = len(result)` ... `if len(result) == size_before`)
+            cur_len = T.mk(('call', 'len', (('coll', name),), ()))
+            stale = [k for k, v in st.vars.items() if v == cur_len]
+            if stale:
+                vs = dict(st.vars)
+                for k in stale:
+                    vs[k] = T.mk(('oldlen', name))
+                st = st._new(vars=vs)
             # fall through to the generic handling of the mutation, in the new state
             return ip.call_generic(node, fterm, args, kws, st, fr)
         return GraphModel.on_call(self, ip, node, fterm, args, kws, st, fr)
+
+    def on_branch(self, ip, node, term, val, st, fr):
+        if term[0] == 'cmp' and term[1] in ('==', '!=', '>', '<', '>=', '<='):
+            a, b = term[2], term[3]
+            for x, y, flip in ((a, b, False), (b, a, True)):
+                if x[0] == 'oldlen' and y == T.mk(('call', 'len', (('coll', x[1]),), ())):
+                    # old size < current size
+                    op = term[1]
+                    if flip:
+                        op = {'>': '<', '<': '>', '>=': '<=', '<=': '>='}.get(op, op)
+                    holds = {'==': False, '!=': True, '<': True, '<=': True, '>': False, '>=': False}[op]
+                    if holds != val:
+                        return None
+        return GraphModel.on_branch(self, ip, node, term, val, st, fr)
 
     def _adding_helpers(self, node, fr):
         """(local name) handed, in `node`, to a helper of the class that adds to it in place"""
@@ -1193,9 +1252,19 @@ def _traversal(ctx, rep, rule):
         rep.error(rule, "iterate_jobs not found")
         return
     # the per-job hook: the method of the job base class that the public entry delegates to
-    hooks = {n.func.attr for n in walk_local(pub.node) if isinstance(n, ast.Call)
-             and isinstance(n.func, ast.Attribute) and n.func.attr in r.jobbase.methods
-             and isinstance(getattr(n, '_parent', None), ast.YieldFrom)}
+    def hooks_of(g):
+        return {n.func.attr for n in walk_local(g.node) if isinstance(n, ast.Call)
+                and isinstance(n.func, ast.Attribute) and n.func.attr in r.jobbase.methods
+                and isinstance(getattr(n, '_parent', None), ast.YieldFrom)}
+    hooks = hooks_of(pub)
+    if not hooks:
+        # the public entry hands over to a private generator of the class (`yield from self._walk(flag)`)
+        for n in walk_local(pub.node):
+            if isinstance(n, ast.Call) and isinstance(n.func, ast.Attribute) and isinstance(n.func.value, ast.Name) \
+                    and n.func.value.id == 'self' and isinstance(getattr(n, '_parent', None), ast.YieldFrom):
+                g = p.supplier(r.sched, n.func.attr)
+                if g is not None and g is not pub:
+                    hooks |= hooks_of(g)
     rep.check(len(hooks) == 1, rule, "iterate_jobs delegates to the per-job traversal hook", pub.qualname,
               "delegations found: %s" % sorted(hooks), "jobs of nested schedulers are not visited")
     if len(hooks) != 1:
